@@ -581,9 +581,197 @@ def parseMvar (t : Tbl) : Option Mvar := do
   let ivs ← if ivsOff = 0 then pure none else some <$> parseIvs (← t.from? ivsOff)
   pure ⟨ivs, recs⟩
 
+/-- a delta-set index is in range; (0xFFFF, 0xFFFF) is the spec's "no variation data" -/
 def Ivs.indexOk (s : Ivs) (oi : Nat × Nat) : Bool :=
-  match s.itemCounts[oi.1]? with
-  | some c => decide (oi.2 < c)
-  | none => false
+  if oi.1 = 0xFFFF ∧ oi.2 = 0xFFFF then true
+  else match s.itemCounts[oi.1]? with
+    | some c => decide (oi.2 < c)
+    | none => false
+
+/-! ## The whole-font oracle of C05
+
+  `wellFormedFont` returns the list of failed clauses (empty = the font passes) and the numbers it
+  extracted (so that the harness can cross-check them against read-fonts' parse of the same bytes). -/
+
+structure FontReport where
+  failures : List String := []
+  info : List (String × List Nat) := []
+  deriving Repr
+
+namespace FontReport
+def fail (r : FontReport) (msg : String) : FontReport := { r with failures := r.failures ++ [msg] }
+def failIf (r : FontReport) (c : Bool) (msg : String) : FontReport := if c then r.fail msg else r
+def note (r : FontReport) (k : String) (v : List Nat) : FontReport := { r with info := r.info ++ [(k, v)] }
+def ok (r : FontReport) : Bool := r.failures.isEmpty
+end FontReport
+
+def requiredTables : List String := ["cmap", "head", "hhea", "hmtx", "maxp", "name", "OS/2", "post", "glyf", "loca"]
+
+def dedupSorted : List Nat → List Nat
+  | a :: b :: rest => if a = b then dedupSorted (b :: rest) else a :: dedupSorted (b :: rest)
+  | l => l
+
+def sortNat (l : List Nat) : List Nat := (l.toArray.qsort (· < ·)).toList
+
+/-- parse an optional table: absent → `none` silently; present but unparseable → failure `parse:<tag>` -/
+def parseOpt {α} (f : Font) (tag : String) (p : Tbl → Option α) (r : FontReport) : FontReport × Option α :=
+  match f.table? tag with
+  | none => (r, none)
+  | some t =>
+    match p t with
+    | none => (r.fail s!"parse:{tag}", none)
+    | some v => (r, some v)
+
+def checkIvs (r : FontReport) (tag : String) (ivs : Ivs) (fvarAxes : Option Nat) : FontReport :=
+  let r := r.note s!"{tag}.axisCount" [ivs.axisCount] |>.note s!"{tag}.regionCount" [ivs.regionCount]
+  let r := r.failIf (ivs.regionIndexes.any (· ≥ ivs.regionCount)) s!"region-index:{tag}"
+  r.failIf (fvarAxes != some ivs.axisCount) s!"axis-count:{tag}"
+
+def glyphChecks (r : FontReport) (mx : Maxp) (gs : Array Glyph) : FontReport := Id.run do
+  let n := gs.size
+  let mut r := r
+  let mut badGid := false
+  let mut cyc := false
+  let mut depthBad := false
+  let mut totalsBad := false
+  let mut maxDepth := 0
+  let mut edges : List Nat := []
+  for g in [0:n] do
+    let gl := gs[g]!
+    if gl.components.isEmpty then
+      if gl.nPoints > mx.maxPoints ∨ gl.nContours.toNat > mx.maxContours then totalsBad := true
+    else
+      for c in gl.components do
+        edges := c :: g :: edges
+      if gl.components.any (· ≥ n) then badGid := true
+      else
+        match glyphTotals gs (n + 1) g with
+        | none => cyc := true
+        | some (d, p, k) =>
+          if d > maxDepth then maxDepth := d
+          if d > mx.maxComponentDepth then depthBad := true
+          if p > mx.maxCompositePoints ∨ k > mx.maxCompositeContours ∨
+             gl.components.length > mx.maxComponentElements then totalsBad := true
+  r := r.note "components" edges.reverse |>.note "componentDepth" [maxDepth]
+  r := r.failIf badGid "component-gid-range"
+  r := r.failIf cyc "component-cycle"
+  r := r.failIf depthBad "component-depth"
+  r := r.failIf totalsBad "maxp-totals"
+  return r
+
+/-- The table-level clauses, given the directory. -/
+def fontChecks (f : Font) (r : FontReport) : FontReport := Id.run do
+  let mut r := r
+  for t in requiredTables do
+    if !f.has t then r := r.fail s!"missing:{t}"
+  let (r1, maxp?) := parseOpt f "maxp" parseMaxp r; r := r1
+  let (r1, head?) := parseOpt f "head" parseHead r; r := r1
+  let some mx := maxp? | return r
+  let n := mx.numGlyphs
+  r := r.note "numGlyphs" [n]
+  r := r.failIf (mx.version != 0x00010000) "maxp-version"
+  -- head
+  let mut long := false
+  if let some h := head? then
+    r := r.note "indexToLocFormat" [h.indexToLocFormat] |>.note "checkSumAdjustment" [h.checkSumAdjustment]
+    r := r.failIf (h.magicNumber != 0x5F0F3CF5) "head-magic"
+    r := r.failIf (h.indexToLocFormat > 1) "loc-format"
+    long := h.indexToLocFormat = 1
+  -- hhea / hmtx (and vhea / vmtx)
+  for (hea, mtx) in [("hhea", "hmtx"), ("vhea", "vmtx")] do
+    let (r1, k?) := parseOpt f hea parseHheaNumHMetrics r; r := r1
+    if let some k := k? then
+      r := r.note s!"{hea}.numLongMetrics" [k]
+      match f.table? mtx with
+      | none => r := r.failIf (hea == "vhea") "missing:vmtx"
+      | some m =>
+        r := r.note s!"{mtx}.length" [m.len]
+        r := r.failIf (k > n ∨ (n > 0 ∧ k = 0) ∨ m.len != 4 * k + 2 * (n - k)) s!"numGlyphs:{mtx}"
+  -- loca / glyf
+  if let (some loca, some glyf) := (f.table? "loca", f.table? "glyf") then
+    r := r.note "loca.length" [loca.len]
+    match parseLoca loca long n with
+    | none => r := r.fail "numGlyphs:loca"
+    | some offs =>
+      r := r.failIf (!(monotone offs)) "loca-not-monotone"
+      r := r.failIf (offs.getLast?.getD 0 > glyf.len) "loca-beyond-glyf"
+      if monotone offs ∧ offs.getLast?.getD 0 ≤ glyf.len then
+        match parseGlyphs glyf offs with
+        | none => r := r.fail "parse:glyf"
+        | some gs => r := glyphChecks r mx gs.toArray
+  -- post
+  let (r1, post?) := parseOpt f "post" parsePost r; r := r1
+  if let some p := post? then
+    r := r.note "post.version" [p.version]
+    if let some pn := p.numGlyphs then
+      r := r.note "post.numGlyphs" [pn]
+      r := r.failIf (pn != n) "numGlyphs:post"
+      r := r.failIf (pn > 0 ∧ p.maxNameIndex ≥ 258 + p.numStrings) "post-name-index"
+  -- name
+  let (r1, name?) := parseOpt f "name" parseName r; r := r1
+  let mut nameIds : List Nat := []
+  if let (some (storage, recs), some nt) := (name?, f.table? "name") then
+    nameIds := dedupSorted (sortNat (recs.map (·.nameID)))
+    r := r.note "name.ids" nameIds
+    r := r.failIf (recs.any fun nr => storage + nr.offset + nr.length > nt.len) "name-string-bounds"
+  -- fvar and the name ids it references
+  let (r1, fvar?) := parseOpt f "fvar" parseFvar r; r := r1
+  let axes? := fvar?.map (·.axisCount)
+  if let some fv := fvar? then
+    r := r.note "fvar.axisCount" [fv.axisCount] |>.note "fvar.nameIds" fv.nameIds
+    for id in dedupSorted (sortNat fv.nameIds) do
+      if !nameIds.contains id then r := r.fail s!"name-id-missing:fvar:{id}"
+  let (r1, stat?) := parseOpt f "STAT" parseStatNameIds r; r := r1
+  if let some ids := stat? then
+    r := r.note "STAT.nameIds" ids
+    for id in dedupSorted (sortNat ids) do
+      if !nameIds.contains id then r := r.fail s!"name-id-missing:STAT:{id}"
+  -- variation tables need fvar, and agree with it on the axis count
+  let (r1, avar?) := parseOpt f "avar" parseAvarAxisCount r; r := r1
+  if let some a := avar? then
+    r := r.note "avar.axisCount" [a]
+    r := r.failIf (axes? != some a) "axis-count:avar"
+  let (r1, gvar?) := parseOpt f "gvar" parseGvar r; r := r1
+  if let some g := gvar? then
+    r := r.note "gvar.axisCount" [g.axisCount] |>.note "gvar.glyphCount" [g.glyphCount]
+    r := r.failIf (axes? != some g.axisCount) "axis-count:gvar"
+    r := r.failIf (g.glyphCount != n) "numGlyphs:gvar"
+    r := r.failIf (!g.offsetsOk) "gvar-offsets"
+  for tag in ["HVAR", "VVAR"] do
+    let (r1, hv?) := parseOpt f tag parseHvar r; r := r1
+    if let some hv := hv? then
+      r := checkIvs r tag hv.ivs axes?
+      match hv.advMap with
+      | none =>
+        r := r.note s!"{tag}.mapCount" []
+        -- implicit mapping: glyph id is the inner index into subtable 0
+        r := r.failIf (hv.ivs.itemCounts.head? != some n) s!"numGlyphs:{tag}"
+      | some m =>
+        r := r.note s!"{tag}.mapCount" [m.length]
+        r := r.failIf (m.length > n ∨ (n > 0 ∧ m.length = 0)) s!"numGlyphs:{tag}"
+        r := r.failIf (m.any fun oi => !hv.ivs.indexOk oi) s!"delta-set-index:{tag}"
+  let (r1, mv?) := parseOpt f "MVAR" parseMvar r; r := r1
+  if let some mv := mv? then
+    r := r.note "MVAR.valueRecordCount" [mv.recs.length]
+    match mv.ivs with
+    | none => r := r.failIf (!mv.recs.isEmpty) "delta-set-index:MVAR"
+    | some ivs =>
+      r := checkIvs r "MVAR" ivs axes?
+      r := r.failIf (mv.recs.any fun oi => !ivs.indexOk oi) "delta-set-index:MVAR"
+  return r
+
+/-- C05 on raw font bytes: container (`wellFormedSfnt`) + TrueType flavour + table-level clauses. -/
+def wellFormedFont (bytes : Bytes) : FontReport := Id.run do
+  let mut r : FontReport := {}
+  for m in sfntFailures bytes do
+    r := r.fail s!"sfnt:{m}"
+  -- `sfntFailures` lists exactly the failing conjuncts of `wellFormedSfnt`; keep the verified predicate authoritative
+  if !(wellFormedSfnt bytes) ∧ r.failures.isEmpty then r := r.fail "sfnt"
+  match parseDir bytes with
+  | none => return r
+  | some d =>
+    r := r.note "numTables" [d.numTables]
+    r := r.failIf (d.version != 0x00010000) "not-truetype"
+    return fontChecks ⟨ByteArray.mk bytes.toArray, d.recs⟩ r
 
 end Fontc.Bytes
